@@ -34,7 +34,7 @@ theorem pump_drains (fuel : Nat) (s : St) (hq : Inv s.fifo) (hl : s.leader = tru
           simp only [Option.isSome_none, Bool.false_eq_true, if_false]
           omega
       · rw [if_neg hk]
-        by_cases hbad : k ∈ s.undecodable
+        by_cases hbad : s.decodable b = false
         · rw [if_pos hbad]
           apply ih
           · exact hq
